@@ -40,6 +40,7 @@ Lin ==
     /\ l <= TraceLen
     /\ \E o \in pend :
          /\ \/ o.op = "event" /\ BlockEvent(o.root)
+            \/ o.op = "headreq" /\ UNCHANGED vars     \* a request to the header provider that does not touch the cache
             \/ o.op = "ctlevent" /\ CtlBlockEvent(o.root)
             \/ o.op = "head" /\ HeadEvent(o.root, TRUE)
             \/ o.op = "clean" /\ Clean
